@@ -10,7 +10,7 @@ ENC = 'pdf/src/enc.rs'
 O = 'pdf/src/object/mod.rs'
 CTOR = r'^impl<I: Object> Stream<I>$'
 WR = r'^impl<I: ObjectWrite> Stream<I>$'
-PROPS = ['C10', 'C04', 'C05']
+PROPS = ['C10', 'C04', 'C05', 'C09', 'C20']  # C09/C20: a stream created, updated or imported is written through to_pdf_stream before it is saved
 
 FS = 'self.info.filters@'
 
